@@ -542,18 +542,20 @@ spec(_DS + 'nested_odd_even_split', l1_obs_desc=const('run'), l2_obs_desc=const(
 spec(_DS + 'from_df', df=dataframe_of(D), channels=const(None), channel_descriptor=lit(None, 'chan'))
 spec(_DS + 'to_df', channel_descriptor=lit(None, 'chan'))
 _TD = 'data.dataset.TemporalDataset.'
+# a single time point (one window left by bin_time / subset_time) in a quarter of the cases
+_T1 = dict(n_time=(1, 4))
 spec(_TD + '__eq__', other=T)
-spec(_TD + 'split_obs', by=lit('cond', 'run'))
-spec(_TD + 'split_channel', by=lit('roi', 'chan'))
-spec(_TD + 'split_time', by=const('time'))
+spec(_TD + 'split_obs', _dims=_T1, by=lit('cond', 'run'))
+spec(_TD + 'split_channel', _dims=_T1, by=lit('roi', 'chan'))
+spec(_TD + 'split_time', _dims=_T1, by=const('time'))
 spec(_TD + 'bin_time', by=const('time'), bins=bins())
 spec(_TD + 'subset_obs', by=lit('cond', 'run'),
      value=values_of('self', 'obs_descriptors', name_from='by', forms=('list', 'scalar', 'array')))
 spec(_TD + 'subset_channel', by=lit('roi', 'chan'),
      value=values_of('self', 'channel_descriptors', name_from='by', forms=('list', 'scalar', 'array')))
 spec(_TD + 'subset_time', by=const('time'), t_from=lit(0.0, 0.5), t_to=lit(0.5, 1.0, 5.0))
-spec(_TD + 'time_as_observations', by=const('time'))
-spec(_TD + 'convert_to_dataset', by=const('time'))
+spec(_TD + 'time_as_observations', _dims=_T1, by=const('time'))
+spec(_TD + 'convert_to_dataset', _dims=_T1, by=const('time'))
 spec('data.base.DatasetBase.save', filename=tmpfile('pkl', 'h5'), file_type=filetype_of(), overwrite=const(True))
 spec('data.dataset.dataset_from_dict', data_dict=to_dict_of(one_of(D, T)))
 spec('data.dataset.load_dataset', filename=savedfile(one_of(D, T), 'pkl', 'h5'))
